@@ -74,8 +74,8 @@ fn rand_clause(rng: &mut Rng, nv: usize) -> Vec<isize> {
     (0..len).map(|_| rand_lit(rng, nv)).collect()
 }
 
-pub const RECIPES: [&str; 10] = [
-    "random", "empty", "units", "reserved-unused", "assume-unseen", "alternate", "php", "dup-taut", "random-dense", "wide",
+pub const RECIPES: [&str; 9] = [
+    "random", "empty", "units", "reserved-unused", "assume-unseen", "alternate", "php", "dup-taut", "random-dense",
 ];
 
 /// Structured and random incremental histories; `max_solves` bounds the number of solver calls.
@@ -106,16 +106,16 @@ pub fn gen_history(rng: &mut Rng, recipe: &str, max_solves: usize) -> Vec<SOp> {
             ops.push(SOp::NVars);
         }
         "wide" => {
-            // size: three-digit variables, ONE clause of 33-90 literals (its text is longer than 128 / 256 bytes), unit
+            // size: three-digit variables, ONE clause of 33-44 literals (its text is longer than 128 bytes), unit
             // clauses that falsify all but its last literal, long assumption lists
-            let base = rng.range(100, 900) as isize;
-            let k = rng.range(33, 90) as isize;
+            let base = rng.range(100, 115) as isize;      // (the reference DPLL walks over every variable up to the largest)
+            let k = rng.range(33, 44) as isize;
             ops.push(SOp::Add((0..=k).map(|i| base + i).collect()));
             for i in 0..k { ops.push(SOp::Add(vec![-(base + i)])); }
             ops.push(SOp::Solve0);                                   // satisfiable: the last literal is forced
             ops.push(SOp::NVars);
             ops.push(SOp::Solve(vec![-(base + k)]));                 // unsatisfiable under this assumption
-            let many: Vec<isize> = (0..rng.range(20, 40) as isize).map(|i| -(base + i)).collect();
+            let many: Vec<isize> = (0..rng.range(20, 30) as isize).map(|i| -(base + i)).collect();
             ops.push(SOp::Solve(many));                              // a long, consistent assumption list
             ops.push(SOp::Add(vec![base + k + 1, -(base + k)]));
             ops.push(SOp::Solve0);
@@ -267,7 +267,7 @@ fn last_line(path: &str, seen: &mut usize) -> Vec<String> {
 pub fn run_satobj(rng: &mut Rng, count: usize, thorough: bool, extra: &[String], out: &mut Out) {
     let env = Env::from_extra(extra);
     for k in 0..count {
-        let recipe = if rng.chance(1, 2) { RECIPES[k % RECIPES.len()] } else { *rng.pick(&RECIPES) };
+        let recipe = if rng.chance(1, 50) { "wide" } else if rng.chance(1, 2) { RECIPES[k % RECIPES.len()] } else { *rng.pick(&RECIPES) };
         let ops = gen_history(rng, recipe, if thorough { 10 } else { 7 });
         out.case(&format!("satobj/{}", recipe));
         for o in ops.iter() { out.inp(&o.to_line()); }
